@@ -44,6 +44,11 @@ class M(Readable):
         return item
 
 
+class MP(M):
+    """M plus a parameter whose wire name has another one's as a string prefix (_x / _x2)"""
+    x2 = Parameter('custom int 2', IntRange(0, 1000), default=0, readonly=False)
+
+
 class CoopSock:
     """socket object handed to the real TCPRequestHandler: scripted request chunks, every recv / send is a scheduling
     point; the bytes sent are appended to the shared event log in the order they really happen"""
@@ -143,11 +148,11 @@ def msg_key(line):
     return (action, spec, None)
 
 
-def build_node(sched, script, modules=('m',), omit=None):
+def build_node(sched, script, modules=('m',), omit=None, classes=None):
     """real node with recording cache-change callbacks; returns node"""
     cfg = {}
     for name in modules:
-        cfg[name] = {'cls': M}
+        cfg[name] = {'cls': (classes or {}).get(name, M)}
         if omit is not None:
             cfg[name]['omit_unchanged_within'] = omit
     node = nodes.Node(cfg)
